@@ -5,7 +5,7 @@
 Require Extraction.
 Require Import ExtrOcamlBasic.
 From Verif Require Import Base.Str Base.Lines Base.Outcome.
-From Verif Require Import Model.RuleId Model.Root Model.Renumber Model.Copyright Model.Patterns Model.ParseLine Model.Format.
+From Verif Require Import Model.RuleId Model.Root Model.Renumber Model.Copyright Model.Patterns Model.ParseLine Model.Format Model.Update.
 From Verif Require Import Gen.Consts.
 Extraction Language OCaml.
 Extraction "model.ml"
@@ -19,4 +19,5 @@ Extraction "model.ml"
   Patterns.m_block_start Patterns.m_block_end Patterns.m_processor_start Patterns.m_assemble_input Patterns.m_assemble_output Patterns.ref_here
   ParseLine.parse_line ParseLine.all_pnames ParseLine.build_pair_map ParseLine.split_args
   Format.process_line Format.format_bytes Format.layout Format.format_eof Format.check_header
+  Update.update_contents Update.read_current Update.unchanged Update.rx_match Update.locate
   Consts.parse_uint_bits Consts.max_scan_token_size Consts.standard_header.
